@@ -122,16 +122,97 @@ def plan(tier):
     return [(W[n], alphabet, 4) for n in W] + [(world_u(), alphabet_u, 4, 3)]
 
 
+# ---------------------------------------------------------------------------
+# the queries from every working directory of a project with sub-directories (the E1 worlds are flat)
+
+CWD_DIRS = ["", "lib", "lib64", "lib/sub", "li", "src", "empty"]      # lib / lib64 / li: names that are string prefixes of each other
+CWD_RULES = {"top.do": 'redo-ifchange lib/a lib64/b lib/sub/c li/d\necho top\n',
+             "lib/a.do": 'redo-ifchange ../src/s1\ncat ../src/s1\n',
+             "lib64/b.do": 'redo-ifchange s2 ../lib/a\ncat s2\n',
+             "lib/sub/c.do": 'redo-ifchange s3 ../../lib64/b\ncat s3\n',
+             "li/d.do": 'redo-ifchange ../src/s1\necho d\n'}
+CWD_SOURCES = {"src/s1": "1\n", "lib64/s2": "2\n", "lib/sub/s3": "3\n"}
+CWD_TARGETS = ["top", "lib/a", "lib64/b", "lib/sub/c", "li/d"]
+CWD_STATES = [("built", [], []),
+              ("source-edited", [("src/s1", "1'\n")], CWD_TARGETS),          # everything depends on src/s1
+              ("deep-source-edited", [("lib/sub/s3", "3'\n")], ["top", "lib/sub/c"])]
+
+
+def cwd_queries(verdict, cov):
+    """redo-targets / redo-sources / redo-ood issued from EVERY directory of a small tree, in every state of a short
+    list: each printed path, resolved against the working directory, must name the same file as the listing from the
+    project root, which in turn must be the known truth; nothing may be printed twice."""
+    import os
+    import shutil
+    import tempfile
+    bindir = common.build_subject()
+    root = tempfile.mkdtemp(prefix="c17cwd-", dir=common.scratch_root())
+    runs = 0
+    try:
+        for sname, edits, want_ood in CWD_STATES:
+            P = os.path.join(root, sname, "p")
+            home = os.path.join(root, sname, "home")
+            os.makedirs(home)
+            for d in CWD_DIRS:
+                os.makedirs(os.path.join(P, d), exist_ok=True)
+            for n, txt in list(CWD_RULES.items()) + list(CWD_SOURCES.items()):
+                with open(os.path.join(P, n), "w") as fh:
+                    fh.write(txt)
+            env = common.base_env(bindir, home)
+            env["REDO_LOG"] = "0"
+            rc, out, err = common.run_cmd(["redo", "top"], P, env)
+            if rc != 0:
+                raise common.MachineryError("cwd_queries: initial build failed: " + err[-300:])
+            for n, txt in edits:
+                with open(os.path.join(P, n), "w") as fh:
+                    fh.write(txt)
+                st = os.stat(os.path.join(P, n))
+                os.utime(os.path.join(P, n), ns=(st.st_atime_ns, st.st_mtime_ns + 2_000_000_000))
+            truth = {"targets": set(CWD_TARGETS), "sources": set(CWD_RULES) | set(CWD_SOURCES), "ood": set(want_ood)}
+            for q in ("targets", "sources", "ood"):
+                for d in CWD_DIRS:
+                    cwd = os.path.join(P, d)
+                    rc, out, err = common.run_cmd(["redo-" + q], cwd, env)
+                    runs += 1
+                    lines = [l for l in out.split("\n") if l]
+                    resolved = [os.path.relpath(os.path.normpath(os.path.join(cwd, l)), P) for l in lines]
+                    sig = None
+                    if rc != 0:
+                        sig = {"kind": "query-failed", "cmd": "redo-" + q, "cwd": d, "state": sname}
+                    elif len(set(resolved)) != len(resolved):
+                        sig = {"kind": "query-lists-a-file-twice", "cmd": "redo-" + q, "cwd": d, "state": sname}
+                    elif set(resolved) != truth[q]:
+                        sig = {"kind": "query-from-subdirectory-names-wrong-files", "cmd": "redo-" + q, "cwd": d, "state": sname}
+                    if sig:
+                        verdict.report(sig, {"engine": "E1-cwd", "lines": lines, "resolved": sorted(resolved),
+                                             "want": sorted(truth[q]), "rc": rc, "err": err[-300:]})
+    finally:
+        shutil.rmtree(root, ignore_errors=True)
+    cov["cwd_queries"] = {"states": [s[0] for s in CWD_STATES], "working_directories": CWD_DIRS, "queries_run": runs}
+
+
+EXTRA = {}
+
+
+def post(stats, verdict):
+    try:
+        cwd_queries(verdict, EXTRA)
+    finally:
+        common.cleanup_scratch()
+
+
 def main(tier):
     return e1prop.run_property(
-        PID, tier, plan(tier), "rv.props.c17",
+        PID, tier, plan(tier), "rv.props.c17", post=post, extra_coverage=EXTRA,
         explore_opts={"probes": QUERIES, "shadow": QUERIES},
         rule="every state reached by the C01/C02 history space (depth <= d) is probed with redo-ood, redo-targets and "
              "redo-sources: lower <= ood <= upper (reference: targets that will certainly re-run / would re-run if every "
              "stale checksummed target changed), targets and sources disjoint and agreeing with the ownership ledger for "
              "every known file that exists; and every history is additionally replayed with all three queries inserted "
              "after every step: exit codes, executed scripts, file contents at every step and the final canonical database "
-             "key must be identical to the run without queries",
+             "key must be identical to the run without queries; plus: the three queries issued from every directory of a "
+             "tree with sub-directories (lib, lib64, lib/sub, li, src, an empty one) in three states: every printed path "
+             "resolved against the working directory names the same files as the listing from the root = the known truth",
         assumptions=["-j1, REDO_LOG=0", "flat worlds", "'known files' = names with a Files row in the implementation's database"],
         budget_s=900 if tier == "quick" else 6000)
 
